@@ -5,7 +5,7 @@ import weakref
 from fractions import Fraction
 
 from vf import import_desper
-from vf.core import Res
+from vf.core import Res, HarnessError
 
 ID = 'C09'
 LEVEL = 'exploration'
@@ -112,6 +112,12 @@ def gen_release(rng, tier):
                       'kill': rng.randrange(1, 8) if rng.random() < 0.5
                       else None, 'final_acts': final,
                       'keep_promise': rng.random() < 0.15})
+    if rng.random() < 0.25:
+        # one body raises at some step: the frame fails, and everything
+        # that was to be released is released one frame later at most
+        c = rng.choice(coros)
+        c['script'].insert(rng.randint(0, len(c['script'])),
+                           {'y': None, 'acts': [], 'raise': True})
     return {'mode': 'release', 'coros': coros,
             'dts': [rng.choice([0.5, 1, 1, 2])
                     for _ in range(rng.randint(4, 12))]}
@@ -513,6 +519,7 @@ def run_release(case):
     due_at = {}                 # k -> frame by whose end it must be dead
     frame = [0]
     flags = set()
+    fault = []
 
     def kill(target, inside):
         """Kill through a temporary strong reference (dropped at once)."""
@@ -543,6 +550,9 @@ def run_release(case):
             steps.append((k, i))
             for name, target in item['acts']:
                 kill(target if target < nc else k, True)
+            if item.get('raise'):
+                fault.append(HarnessError(f'coroutine {k} raises'))
+                raise fault[-1]
             yield item['y']
         steps.append((k, len(script)))
         for name, target in case['coros'][k].get('final_acts', []):
@@ -574,14 +584,28 @@ def run_release(case):
                         due_at.setdefault(k, f)
                     m.acc = m.n = None
         before = len(steps)
+        nfaults = len(fault)
+        failed = False
         try:
             proc.process(dt)
         except Exception as ex:
-            res.div(f, 'process-raised', f'{type(ex).__name__}: {ex!r}',
-                    'no exception', repr(ex))
-            break
+            if len(fault) == nfaults + 1 and ex is fault[-1]:
+                failed = True
+                flags.add('frame-failed-by-raising-body')
+                fault[-1] = None    # its traceback references the generator
+            else:
+                res.div(f, 'process-raised', f'{type(ex).__name__}: {ex!r}',
+                        'no exception', repr(ex))
+                break
+            del ex
         for k, idx in steps[before:]:
             m = models[k]
+            if idx < len(m.script) and m.script[idx].get('raise'):
+                # over for good; conservatively due by the next frame
+                if m.st == 'active':
+                    m.st = 'done'
+                due_at[k] = f + 1
+                continue
             if idx >= len(m.script):
                 if m.st == 'active':
                     m.st = 'done'
@@ -598,6 +622,11 @@ def run_release(case):
                 m.n, m.acc = Fraction(y), Fraction(0)
                 due_at.pop(k, None)
         gc.collect()
+        if failed:
+            # the frame was abandoned before the turn of the coroutines
+            # queued after the raising one
+            for k in due_at:
+                due_at[k] = max(due_at[k], f + 1)
         for k in [k for k, when in due_at.items() if when <= f]:
             m = models[k]
             del due_at[k]
